@@ -233,7 +233,7 @@ def gen_cases(ctx):
     cases = []
     sizes = [0, 1, 1, 2, 3, 5, 8, 20]
     # (a) lists through VLRList directly
-    for i in range(ctx.n(140, 1500)):
+    for i in range(ctx.n(400, 3000)):
         ext = rng.random() < 0.5
         cases.append({"mode": "list", "ext": ext, "recs": gen_list(rng, rng.choice(sizes))})
     # every id / description length, full-width punctuation
@@ -251,7 +251,7 @@ def gen_cases(ctx):
     cases.append({"mode": "list", "ext": False, "recs": [(U_PROJ, 34735, b"", rbytes(rng, 6) + (8190).to_bytes(2, "little") + rbytes(rng, 8 * 8190), "geokeys/wf")]})
     cases.append({"mode": "list", "ext": False, "recs": [(U_PROJ, 34736, b"", rbytes(rng, 65528), "doubles/wf"), (U_SPEC, 4, b"", rbytes(rng, 192 * 341), "extra/wf")]})
     # (b) real files
-    for i in range(ctx.n(70, 700)):
+    for i in range(ctx.n(200, 1500)):
         ver, fmt = rng.choice([("1.2", 0), ("1.2", 3), ("1.3", 1), ("1.4", 3), ("1.4", 6), ("1.4", 6), ("1.4", 7), ("1.4", 6)])
         vl = gen_list(rng, rng.choice(sizes), file_vlr=True)
         evl = gen_list(rng, rng.choice(sizes)) if ver == "1.4" and rng.random() < 0.8 else None
